@@ -1,5 +1,4 @@
-import PicoProofs.SpecLaws
-import PicoProofs.DecSafe
+import PicoProofs.EndToEnd
 import PicoProofs.Tie
 /-
 C09 — Decoding concatenated encodings equals decoding them one after another.
@@ -39,5 +38,14 @@ theorem C09_any_number_of_calls (S : Schema) (id : Nat) (bs : List Bytes) (m : V
 theorem C09_concat_fuel (S : Schema) (f1 f2 id : Nat) (a b : Bytes) (m m1 m2 : Val)
     (h1 : specDec S f1 id a m = some m1) (h2 : specDec S f2 id b m1 = some m2) :
     ∀ f, 2 * (a ++ b).length + 2 ≤ f → specDec S f id (a ++ b) m = some m2 := specDec_append S h1 h2
+
+/-- MACHINE LEVEL: unmarshalling `a` (without error) and then `b` into the same message gives the
+same verdict and the same message as unmarshalling `a ++ b` in one call -/
+theorem C09_unmarshal_concat (S : Schema) (hS : S.supported = true) (id : Nat) (a b : Bytes) (m0 : Val)
+    (hm0 : Gen2.shMsg S id m0 = true) :
+    ∀ d1 m1, Gen2.unmarshal S id a m0 = .ok (d1, m1) → d1.err = none →
+    ∃ d2 m2 d12 m12, Gen2.unmarshal S id b m1 = .ok (d2, m2) ∧ Gen2.unmarshal S id (a ++ b) m0 = .ok (d12, m12) ∧
+      (d12.err = none ↔ d2.err = none) ∧ (d2.err = none → m12 = m2) :=
+  unmarshal_concat S hS id a b m0 hm0
 
 end Pico.Props
